@@ -17,6 +17,7 @@ type access struct {
 	Func  string   `json:"func"`
 	Write bool     `json:"write"`
 	Locks []string `json:"locks"`
+	Own   []string `json:"own"`
 	Fresh bool     `json:"fresh"`
 	Pos   string   `json:"pos"`
 }
@@ -60,7 +61,7 @@ func locks(l []string) string {
 }
 
 func key(a access) string {
-	return fmt.Sprintf("%s %s %s %s", a.Func, b2s(a.Write), locks(a.Locks), b2s(a.Fresh))
+	return fmt.Sprintf("%s %s %s %s %s", a.Func, b2s(a.Write), locks(a.Locks), locks(a.Own), b2s(a.Fresh))
 }
 
 func (Area) Gen(r *rand.Rand, tier string, emit func(string)) {
@@ -77,7 +78,7 @@ func (Area) Gen(r *rand.Rand, tier string, emit func(string)) {
 
 func (Area) Exec(input string) string {
 	f := strings.Fields(input)
-	if len(f) != 10 || f[0] != "pair" {
+	if len(f) != 12 || f[0] != "pair" {
 		return "BADOP"
 	}
 	t := load()
@@ -85,7 +86,7 @@ func (Area) Exec(input string) string {
 	for _, a := range t.Accesses {
 		have[a.Field+" "+key(a)] = true
 	}
-	if have[f[1]+" "+strings.Join(f[2:6], " ")] && have[f[1]+" "+strings.Join(f[6:10], " ")] {
+	if have[f[1]+" "+strings.Join(f[2:7], " ")] && have[f[1]+" "+strings.Join(f[7:12], " ")] {
 		return "present"
 	}
 	return "absent"
